@@ -8,7 +8,11 @@ TZP.timezone lookups.
 from datetime import datetime, timedelta
 
 from icalendar import Timezone, TimezoneDaylight, TimezoneStandard
-from vcheck.hcommon import pin, pinned
+from vcheck.hcommon import pin, pinned, tier
+
+HMAX = tier(1, 2)
+FMAX = tier(1, 2)
+JMIN = tier(0, -1)
 
 H = 3600
 
@@ -30,53 +34,67 @@ def _obs(kind, day, hour, off_from, off_to, name):
     return sub
 
 
-def h_transitions(n: int, k1: int, d1: int, h1: int, f1: int, t1: int, k2: int, d2: int, h2: int, f2: int,
-                  t2: int, k3: int, d3: int, h3: int, f3: int, t3: int) -> bool:
+def _expected_at(spec, u):
+    """(offset_to, name, kind) of the observance with the latest UTC onset <= u (hours), or None"""
+    best = None
+    for k, d, h, f, t, nm in spec:
+        onset = (d - 1) * 24 + h - f
+        if onset <= u and (best is None or onset > best[0]):
+            best = (onset, t, nm, k)
+    return best
+
+
+def h_transitions(n: int, k1: int, h1: int, f1: int, j1: int, k2: int, h2: int, f2: int, j2: int,
+                  k3: int, h3: int, f3: int, j3: int, named: bool) -> bool:
     """
-    get_transitions(): the UTC onset of every observance is local DTSTART - TZOFFSETFROM, the list is
-    sorted by that UTC onset, entry i carries TZOFFSETTO, the TZNAME, and a zero DST offset for STANDARD.
+    1-3 single-onset observances on 2020-01-03 (local hour h, TZOFFSETFROM f, TZOFFSETTO f+j hours):
+    get_transitions() returns the onsets as local DTSTART - TZOFFSETFROM, sorted by that UTC time, each
+    with its TZOFFSETTO, TZNAME and a zero DST offset for STANDARD; the pytz time zone built from it
+    reports, one second before / at / one second after every onset (from the first onset on), the
+    TZOFFSETTO and TZNAME of the observance with the latest onset not after that instant, and zero DST
+    for STANDARD.
 
     pre: 1 <= n <= 3 and pinned("n", n)
-    pre: 0 <= k1 <= 1 and 0 <= k2 <= 1 and 0 <= k3 <= 1
-    pre: 2 <= d1 <= 4 and 2 <= d2 <= 4 and 2 <= d3 <= 4
-    pre: 0 <= h1 <= 23 and 0 <= h2 <= 23 and 0 <= h3 <= 23
-    pre: -12 <= f1 <= 14 and -12 <= t1 <= 14 and -12 <= f2 <= 14 and -12 <= t2 <= 14 and -12 <= f3 <= 14 and -12 <= t3 <= 14
-    pre: pinned("k1", k1)
+    pre: 0 <= k1 <= 1 and 0 <= k2 <= 1 and 0 <= k3 <= 1 and pinned("k1", k1)
+    pre: 0 <= h1 <= HMAX and 0 <= h2 <= HMAX and 0 <= h3 <= HMAX and pinned("h1", h1)
+    pre: -FMAX <= f1 <= FMAX and -FMAX <= f2 <= FMAX and -FMAX <= f3 <= FMAX and pinned("f1", f1)
+    pre: JMIN <= j1 <= 1 and JMIN <= j2 <= 1 and JMIN <= j3 <= 1
+    pre: n < 3 or (h3 <= 1 and -1 <= f3 <= 1 and h2 <= 1 and -1 <= f2 <= 1 and j2 >= 0 and j3 >= 0 and j1 >= 0)
+    pre: pinned("named", named)
     post: _
     """
-    n = pin("n", n)
-    k1 = pin("k1", k1)
-    spec = [(k1, d1, h1, f1, t1, "A"), (k2, d2, h2, f2, t2, "B"), (k3, d3, h3, f3, t3, "C")][:n]
+    import pytz
+    from icalendar.timezone.pytz import PYTZ
+    n = pin("n", n); k1 = pin("k1", k1); f1 = pin("f1", f1); h1 = pin("h1", h1); named = pin("named", named)
+    raw = [(k1, h1, f1, j1, "A"), (k2, h2, f2, j2, "B"), (k3, h3, f3, j3, "C")][:n]
+    spec = []
     tz = Timezone()
     tz.add("TZID", "X/Custom")
     has_std = False
-    exp = []
-    for k, d, h, f, t, nm in spec:
-        tz.add_component(_obs(k, d, h, f, t, nm))
+    for k, h, f, j, nm in raw:
+        k = _c(k, 0, 1); h = _c(h, 0, 2); f = _c(f, -2, 2); j = _c(j, -1, 1)
+        spec.append((k, 3, h, f, f + j, nm))
+        tz.add_component(_obs(k, 3, h, f, f + j, nm if named else None))
         has_std = has_std or k == 0
-        # UTC onset in hours since 2020-01-01T00
-        exp.append(((d - 1) * 24 + h - f, t, nm, k))
     if not has_std:
-        return True     # DST delta needs a standard observance (outside the statement)
+        return True     # the DST delta needs a STANDARD observance (outside the statement)
     times, info = tz.get_transitions()
     if len(times) != n or len(info) != n:
         return False
     base = datetime(2020, 1, 1)
     got = []
     for tt, (osto, dst, name) in zip(times, info):
-        got.append(((tt - base) // timedelta(hours=1), osto // timedelta(hours=1), name, dst))
         if (tt - base) % timedelta(hours=1) != timedelta(0):
             return False
-    # sorted by UTC onset
+        got.append(((tt - base) // timedelta(hours=1), osto // timedelta(hours=1), name, dst))
     for i in range(n - 1):
         if got[i][0] > got[i + 1][0]:
             return False
-    # same multiset of (onset, offset_to, name); STANDARD => dst 0
-    rest = list(exp)
+    rest = [((d - 1) * 24 + h - f, t, nm, k) for k, d, h, f, t, nm in spec]
     for onset, to, name, dst in got:
         hit = None
         for e in rest:
-            if e[0] == onset and e[1] == to and e[2] == name:
+            if e[0] == onset and e[1] == to and (not named or e[2] == name):
                 hit = e
                 break
         if hit is None:
@@ -84,4 +102,86 @@ def h_transitions(n: int, k1: int, d1: int, h1: int, f1: int, t1: int, k2: int, 
         if hit[3] == 0 and dst != timedelta(0):
             return False
         rest.remove(hit)
-    return rest == []
+    if rest:
+        return False
+    onsets = sorted(e[0] for e in [((d - 1) * 24 + h - f,) for k, d, h, f, t, nm in spec])
+    if len(set(onsets)) != len(onsets):
+        return True     # two observances with the same UTC onset: "the latest onset" is not unique
+    tzobj = PYTZ().create_timezone(tz)
+    first = onsets[0]
+    for onset in onsets:
+        for delta in (-1, 0, 1):
+            u = base + timedelta(hours=onset, seconds=delta)
+            if u < base + timedelta(hours=first):
+                continue
+            exp = _expected_at(spec, onset if delta >= 0 else onset - 1)
+            # (one second before an onset the previous observance applies: onsets are whole hours)
+            local = pytz.utc.localize(u).astimezone(tzobj)
+            if local.utcoffset() != timedelta(hours=exp[1]):
+                return False
+            if named and local.tzname() != exp[2]:
+                return False
+            if exp[3] == 0 and local.dst() != timedelta(0):
+                return False
+    return True
+
+
+_CAL = """BEGIN:VCALENDAR
+VERSION:2.0
+PRODID:x
+%s
+END:VCALENDAR
+"""
+_VTZ = """BEGIN:VTIMEZONE
+TZID:%s
+BEGIN:STANDARD
+DTSTART:19700101T000000
+TZOFFSETFROM:+0%d00
+TZOFFSETTO:+0%d00
+TZNAME:S%d
+END:STANDARD
+END:VTIMEZONE"""
+_EV = """BEGIN:VEVENT
+UID:u
+DTSTART;TZID=%s:20200601T120000
+END:VEVENT"""
+
+
+def h_cache(pytz_provider: bool, id1: int, off1: int, id2: int, off2: int, third: bool) -> bool:
+    """
+    Calendars that define custom TZIDs are parsed one after the other in one process: the DTSTART
+    of each calendar gets the offset of the VTIMEZONE contained in the SAME calendar.
+    (Known findings C12-K1 / C12-K2 are outside this condition: an earlier calendar defining the same
+    TZID differently, and a VTIMEZONE standing after the event that uses it.)
+
+    pre: 0 <= id1 <= 1 and 0 <= id2 <= 1
+    pre: 1 <= off1 <= 3 and 1 <= off2 <= 3
+    pre: id1 != id2 or off1 == off2
+    pre: pinned("pytz_provider", pytz_provider) and pinned("third", third)
+    post: _
+    """
+    from icalendar import Calendar
+    from icalendar.timezone import tzp
+    pytz_provider = pin("pytz_provider", pytz_provider); third = pin("third", third)
+    if pytz_provider:
+        tzp.use_pytz()
+    else:
+        tzp.use_zoneinfo()
+    try:
+        ids = ["Custom/Alpha", "/custom/Beta"]
+        seq = [(ids[_c(id1, 0, 1)], _c(off1, 1, 3)), (ids[_c(id2, 0, 1)], _c(off2, 1, 3))]
+        if third:
+            seq.append(seq[0])
+        for tzid, off in seq:
+            text = _CAL % (_VTZ % (tzid, off, off, off) + "\n" + _EV % tzid)
+            cal = Calendar.from_ical(text)
+            dt = cal.events[0].start
+            if dt.utcoffset() != timedelta(hours=off):
+                return False
+            if dt.replace(tzinfo=None) != datetime(2020, 6, 1, 12):
+                return False
+            if cal.events[0]["DTSTART"].params.get("TZID") != tzid:
+                return False
+        return True
+    finally:
+        tzp.use_zoneinfo()
